@@ -416,6 +416,7 @@ smtp_data(void)
 	if (submission_mode) {
 		struct iovec wdata[10];
 		unsigned int wpos = 0;
+		char timebuf[20];	/* must live until the writev() below */
 
 		if (!(headerflags & HEADER_HAS_DATE)) {
 			wdata[wpos].iov_base = "Date: ";
@@ -437,7 +438,6 @@ smtp_data(void)
 			wpos++;
 		}
 		if (!(headerflags & HEADER_HAS_MSGID)) {
-			char timebuf[20];
 			struct timeval ti;
 			size_t l;
 
